@@ -62,6 +62,28 @@ Fixpoint json_eqb (a b : json) {struct a} : bool :=
 Inductive ojson := OJ (j : json) | OJErr | OJPanic.
 Inductive oval := OV (v : val) | OVErr | OVPanic.
 Inductive obytes := OB (b : list Z) | OBErr | OBPanic.
+(* a decoded CSV matrix, cell by cell as UTF-8 bytes (any Unicode content) *)
+Inductive omat := OM (m : list record) | OMErr | OMPanic.
+
+Fixpoint rec_eqb (x y : record) : bool :=
+  match x, y with
+  | [], [] => true
+  | f :: x', g :: y' => zs_eqb f g && rec_eqb x' y'
+  | _, _ => false
+  end.
+Fixpoint recs_eqb (a b : list record) : bool :=
+  match a, b with
+  | [], [] => true
+  | x :: a', y :: b' => rec_eqb x y && recs_eqb a' b'
+  | _, _ => false
+  end.
+Definition agree_mat (m : res (list record)) (o : omat) : bool :=
+  match m, o with
+  | Ok a, OM b => recs_eqb a b
+  | Err, OMErr => true
+  | Panic, OMPanic => true
+  | _, _ => false
+  end.
 
 Definition agree_json (m : res json) (o : ojson) : bool :=
   match m, o with
@@ -100,8 +122,8 @@ Inductive case13 :=
 | KBitsMask (v : val) (o : oval)
 | KWire (r : rv) (o : oval)                                (* marshal then unmarshal *)
 | KWireDec (j : json) (o : oval)                           (* unmarshal a foreign document *)
-| KCsv (m : list record) (enc : obytes) (dec : oval)       (* encode; decode (encode m) *)
-| KCsvDec (inp : list Z) (o : oval).                       (* decode arbitrary bytes *)
+| KCsv (m : list record) (enc : obytes) (dec : omat)       (* encode; decode (encode m) *)
+| KCsvDec (inp : list Z) (o : omat).                       (* decode arbitrary bytes *)
 
 (* the committed quirk set: flags of open findings on, of fixed findings off
    (derived from known_findings.txt by gen/c13.py) *)
@@ -133,9 +155,6 @@ Definition jattr (cur : jquirks) (f : jquirks -> res json) : Z :=
       | [] => 10
       end
   end.
-
-Definition matrix_val (m : list record) : val :=
-  varr (map (fun r => varr (map (fun f => vstr f) r)) m).   (* fields as byte-valued code points: ASCII scope *)
 
 Definition csv_sig (m : list record) : Z :=
   if negb (forallb (fun r => forallb (fun f => negb (has_crlf f)) r) m) then 43
@@ -196,17 +215,17 @@ Definition classify (g : cfg) (c : case13) : Z :=
       else (if agree_val cur o then 33 else 2)
   | KCsv m enc dec =>
       let e := csv_encode m in
-      let d := rmap matrix_val (csv_decode_arg (c_csv_empty g) e) in
+      let d := csv_decode_arg (c_csv_empty g) e in
       let enc_ok := match enc with OB b => zs_eqb b e | _ => false end in
-      let back := agree_val (Ok (matrix_val m)) dec in
+      let back := agree_mat (Ok m) dec in
       if match e with [] => c_csv_empty g | _ => false end
-      then (if enc_ok && agree_val d dec then 44 else if back then 2 else 1)   (* empty input rejected *)
-      else if csv_ok m then (if enc_ok && back && agree_val d dec then 0 else 1)
+      then (if enc_ok && agree_mat d dec then 44 else if back then 2 else 1)   (* empty input rejected *)
+      else if csv_ok m then (if enc_ok && back && agree_mat d dec then 0 else 1)
       else if back then 2                                      (* better than the model predicts *)
-      else if enc_ok && agree_val d dec then csv_sig m else 2
+      else if enc_ok && agree_mat d dec then csv_sig m else 2
   | KCsvDec inp o =>
-      let d := rmap matrix_val (csv_decode_arg (c_csv_empty g) inp) in
-      if out_of_model d then 3 else if agree_val d o then 0 else 1
+      let d := csv_decode_arg (c_csv_empty g) inp in
+      if out_of_model d then 3 else if agree_mat d o then 0 else 1
   end.
 
 Record kcase := { k_id : Z; k_case : case13 }.
